@@ -7,5 +7,7 @@ HARNESSES = _load("sg_common").sg_harnesses(("SEL_WR",))
 HARNESSES += _load("blk_common").sds_harnesses(("SEL_FLUSH",))
 
 HARNESSES += _load("blk_common").dwvw_harnesses()
+# ALAC staging layer (K-block contract for the bit-stream library)
+HARNESSES += _load("blk_common").alac_stage_harnesses(("SEL_WRITE", "SEL_READ"))
 
 META = {"assumptions": ["E-memfile"], "outside": ["block codecs: see DESIGN"]}
